@@ -196,11 +196,13 @@ def rand_doc(rng, base, h, w, r0):
     return doc
 
 
-def rand_history(rng):
-    h = rng.randint(1, 5)
+def rand_history(rng, tall=False):
+    """tall: some arrays are dozens of rows taller than the terminal (long output scrolled in at once), starting
+    below the top row"""
+    h = rng.randint(1, 5) if not tall else rng.randint(2, 5)
     w = rng.randint(2, 6)
     base = rng.choice([0, 0, 1, 2, 3])
-    r0 = rng.choice([0, h - 1, rng.randrange(h), rng.randrange(h)])
+    r0 = rng.choice([0, h - 1, rng.randrange(h), rng.randrange(h)]) if not tall else rng.randint(1, h - 1)
     c0 = rng.choice([0, w - 1, rng.randrange(w)])
     inp = {"hide": rng.random() < 0.5, "keep": rng.random() < 0.5, "h": h, "w": w, "base": base,
            "doc": rand_doc(rng, base, h, w, r0), "cur": [r0, c0], "pending": rng.random() < 0.2, "ops": []}
@@ -225,6 +227,8 @@ def rand_history(rng):
                 rows = rows[1:]          # deliberately off by one: every cached row is stale
         else:
             height = rng.choice([0, 1, max(0, h - top - 1), h - top, h - top + 1, h, h + 1, h + 2, h + 3, rng.randint(0, h + 3)])
+            if tall and rng.random() < 0.6:
+                height = h + rng.choice([15, 16, 17, 31, 32, 33, 34, 40, 63, 64, 65, 100])
             for i in range(height):
                 r = rng.random()
                 if i < prev_n and r < 0.2:
@@ -247,7 +251,7 @@ def rand_history(rng):
 def generate(rng, tier):
     n = 8000 if tier == "thorough" else 600
     for i in range(n):
-        inp = rand_history(rng)
+        inp = rand_history(rng, tall=(i % 20 == 7))
         if tier == "thorough" and i % 2 == 0:
             # second opinion by pyte.HistoryScreen; pyte cannot be put into the pending-wrap state from outside and
             # does not track blinking before 0.8.1 / faint at all (faint is masked in the comparison)
